@@ -442,6 +442,9 @@ func replayCallGraph(n *Native, job *Job, v *Violation) (ReplayResult, bool) {
 	out, _, _ := n.RunTi(map[string]string{"a.rb": conc}, args, nativeConfigFor(n, job, src))
 	v.Witness["native-program"] = conc
 	want := "  - total callers: 1"
+	if k := v.Witness["C24.sites"]; k != "" {
+		want = "  - total callers: " + k
+	}
 	if v.ID == "C24-row" {
 		want = "    - call point: ./a.rb:" + v.Witness["C24.callrow"]
 	}
@@ -454,9 +457,12 @@ func replayNamespaces(n *Native, job *Job, v *Violation) (ReplayResult, bool) {
 	if v.Kind != "assert" {
 		return ReplayResult{}, false
 	}
-	if v.Witness["C27.variant"] != "0" {
+	var wrap int
+	fmt.Sscanf(v.Witness["C27.wrap"], "%d", &wrap)
+	if wrap == 0 {
 		return replayPair(n, job, v)
 	}
+	qual := v.Witness["C27.qual"]
 	ca, okA := concretizeSym(v.Witness["srcA"], v.Witness)
 	cb, okB := concretizeSym(v.Witness["srcB"], v.Witness)
 	if !okA || !okB {
@@ -467,11 +473,11 @@ func replayNamespaces(n *Native, job *Job, v *Violation) (ReplayResult, bool) {
 	cfg := nativeConfigFor(n, job, ca)
 	outA, _, _ := n.RunTi(map[string]string{"a.rb": ca}, []string{"./a.rb"}, cfg)
 	outB, _, _ := n.RunTi(map[string]string{"a.rb": cb}, []string{"./a.rb"}, cfg)
-	nb := dropShift(dropShift(strings.ReplaceAll(outB, "Mm::", ""), glines+2, 1), 1, 1)
+	nb := dropShift(dropShift(strings.ReplaceAll(outB, qual, ""), glines+wrap+1, wrap), 1, wrap)
 	v.Witness["native-program-A"] = ca
 	v.Witness["native-program-B"] = cb
 	return ReplayResult{Cmd: "ti ./a.rb on the top-level and on the module-wrapped program", Reproduced: nb != outA,
-		Observed: fmt.Sprintf("top level reports %q; wrapped (rows shifted back, Mm:: removed) reports %q", outA, nb)}, true
+		Observed: fmt.Sprintf("top level reports %q; wrapped (rows shifted back, %s removed) reports %q", outA, qual, nb)}, true
 }
 
 // replaySuggest re-judges C23 counterexamples natively.
